@@ -1039,6 +1039,8 @@ def register_read_plumbing(R):
         df, _ = v["result"]
         f, allc = o["swc_file"].z, NCOLS + v["g_extra"]
         keep = [c for c in allc if not (o["reset_index"] and c in (names.id, names.pid))]
+        if any(c not in df.cols for c in allc):
+            return False
         out = [zint(df.n) == rows(f)]
         for c in keep:
             j = z3.Int(fresh_name("j"))
